@@ -103,6 +103,8 @@ pub fn model_graph() -> Graph {
     let dot = format!("{out_dir}/HsTurn.dot");
     let o = Command::new("tlc")
         .current_dir(&tla_dir)
+        // TLC leaves an empty tlc-<n> directory in java.io.tmpdir on every run: keep it inside out_dir
+        .env("JAVA_TOOL_OPTIONS", format!("-Djava.io.tmpdir={out_dir}"))
         .args(["-metadir", &format!("{out_dir}/meta"), "-dump", "dot", &dot, "-workers", "4", "HsTurn.tla"])
         .output()
         .unwrap_or_else(|e| machinery(&format!("cannot run tlc: {e}")));
